@@ -21,6 +21,10 @@ class Undecided(Exception):
     """The engine met something outside its subset; every obligation of the run becomes undecided, never violated."""
 
 
+class BudgetExceeded(Undecided):
+    pass
+
+
 class Infeasible(Exception):
     """The current path is infeasible (or was cut by an assume)."""
 
@@ -390,6 +394,7 @@ class PathCtx(object):
         self.depth = 0
         self.steps = 0
         self.loop_stack = []
+        self.write_log = []     # every heap write of the path: (object id, field or '<items>')
 
     # -- fresh names / objects ----------------------------------------------------------------------------------------
     def fresh(self, base):
@@ -405,6 +410,19 @@ class PathCtx(object):
 
     def data(self, obj):
         return self.heap[obj.id]
+
+    def input_writes(self, allowed=()):
+        """Writes of this path that hit an object of the symbolic input (a lazily materialised node or list, or a task-made root) and are
+        not listed in `allowed` ((Obj, field) pairs).  Objects allocated by the analysed code itself have no origin and are not reported."""
+        ok = set((o.id, f) for o, f in allowed)
+        out = []
+        for oid, field in self.write_log:
+            d = self.heap.get(oid)
+            if d is None or (oid, field) in ok:
+                continue
+            if getattr(d, 'origin', None) is not None or d.extra.get('input_root'):
+                out.append(('%s#%d' % (d.name or d.kind, oid), field))
+        return out
 
     def new_list(self, items):
         o = self.new_obj('list')
@@ -448,6 +466,10 @@ class PathCtx(object):
         if z3.is_false(cond):
             return False
         idx = len(self.decisions)
+        if time.time() > self.explorer.deadline:
+            raise BudgetExceeded('exploration budget of the task exceeded after %d paths (symbolic execution does not converge on this code)' % len(self.explorer.paths))
+        if idx > 600:
+            raise Undecided('more than 600 symbolic decisions on one path')
         if idx < len(self.prefix):
             d = self.prefix[idx]
             self.decisions.append(d)
@@ -524,6 +546,7 @@ class PathCtx(object):
         return ob
 
     def note_write(self, obj, field):
+        self.write_log.append((obj.id, field))
         for lp in self.loop_stack:
             self.explorer.loop_writes.setdefault(lp, set())
             w = (obj.id, field)
@@ -545,6 +568,7 @@ class Explorer(object):
         self.loop_first_obj = {}
         self.loop_writes_grew = False
         self.undecided_reason = None
+        self.deadline = time.time() + float(os.environ.get('PYVC_EXPLORE_BUDGET_S', '240'))
 
     def push(self, prefix):
         self.worklist.append(list(prefix))
@@ -570,6 +594,8 @@ class Explorer(object):
                 try:
                     outcome = run(ctx)
                     self.paths.append(('ok', list(ctx.decisions), outcome))
+                    if getattr(ctx, 'unknown_effects', None):
+                        self.undecided_reason = 'recursive helper without a contract, inner calls not executed: %s' % sorted(set(ctx.unknown_effects))
                     if on_end is not None:
                         on_end(ctx, outcome)
                 except Infeasible:
@@ -581,6 +607,9 @@ class Explorer(object):
                 except Undecided as e:
                     self.undecided_reason = str(e)
                     self.paths.append(('undecided', list(ctx.decisions), str(e)))
+                    if isinstance(e, BudgetExceeded):
+                        self.worklist = []
+                        self.loop_writes_grew = False
             if not self.loop_writes_grew or rounds >= 4:
                 break
         return self
